@@ -40,6 +40,8 @@ BUILTIN_EXC = {
     "ZeroDivisionError", "AssertionError", "AttributeError", "ImportError", "LookupError", "IndexError", "KeyError",
     "NameError", "OSError", "TimeoutError", "RuntimeError", "NotImplementedError", "RecursionError", "StopIteration",
     "TypeError", "ValueError", "UnicodeError", "UnicodeDecodeError", "UnicodeEncodeError", "MemoryError",
+    "ConnectionError", "FileNotFoundError", "PermissionError", "OverflowError", "EOFError", "ModuleNotFoundError",
+    "UnboundLocalError", "BufferError", "ReferenceError", "SystemError", "StopAsyncIteration",
 }
 BUILTIN_TYPES = {"dict", "list", "tuple", "set", "frozenset", "str", "int", "float", "bool", "bytes", "object", "type"}
 
